@@ -41,14 +41,16 @@ pub fn render(s: &TypeSpec) -> Option<Rendered> {
     let targets: Vec<String> = s.into_targets().iter().filter_map(|a| a.into_ty.clone()).collect();
     let mut o = String::from("pub fn run(o: &mut Out) {\n");
     let mut n_checks = 0;
-    for t in &targets {
+    for tsrc in &targets {
+        // the target as written may mention the type's parameters; values live at the instantiation
+        let t = &s.inst_of(tsrc);
         for (vi, ix) in s.value_indices() {
             let v = &s.variants[vi];
-            let k = designated(v, t)?;
+            let k = designated(v, tsrc)?;
             let f = &v.fields[k];
             let val = &f.ty.vals[ix[k] % f.ty.vals.len()];
-            let exp = match f.into_attr(t).and_then(|a| a.method()) {
-                Some(m) => format!("{m}({val})"),
+            let exp = match f.into_attr(tsrc).and_then(|a| a.method()) {
+                Some(m) => format!("{m}({{ let v: {} = {val}; v }})", f.ty.inst),
                 None if f.ty.inst == *t => val.clone(),
                 None => format!("<{t} as ::core::convert::From<{}>>::from({val})", f.ty.inst),
             };
@@ -75,6 +77,9 @@ pub fn render(s: &TypeSpec) -> Option<Rendered> {
     }
     if s.all_fields().any(|f| f.attrs.iter().any(|a| a.tr == Tr::Into && a.method().is_some())) {
         classes.push("into_method".to_string());
+    }
+    if targets.iter().any(|t| s.inst_of(t) != *t) {
+        classes.push("target_mentions_type_parameter".to_string());
     }
     if s.variants.iter().any(|v| targets.iter().any(|t| v.fields.len() > 1 && v.fields.iter().all(|f| f.into_attr(t).is_none()))) {
         classes.push("found_by_unique_type".to_string());
